@@ -189,6 +189,7 @@ impl Monitor for C01 {
         self.check_solvency(c.post, out, &format!("after step {} ({})", c.step, c.op.kind()));
 
         // ---- withdrawals
+        let mut withdrew = false;
         if let Op::Withdraw { user } = c.op {
             let pre_reqs = c.pre.requests.get(user).cloned().unwrap_or_default();
             if c.res.ok() {
@@ -230,104 +231,7 @@ impl Monitor for C01 {
                 }
                 out.distinct(&("withdraw", ids.len().min(4), decade(sent), c.pre.history.iter().filter(|h| !h.released).count().min(4)));
 
-                // ---- release group of this transaction
-                let group: Vec<u64> = c
-                    .post
-                    .history
-                    .iter()
-                    .filter(|h| h.released && c.pre.hist(h.batch_id).map(|p| !p.released).unwrap_or(false))
-                    .map(|h| h.batch_id)
-                    .collect();
-                if !group.is_empty() {
-                    out.count("c01.release_groups");
-                    if group.len() >= 2 {
-                        out.count("c01.release_groups_2plus");
-                    }
-                    if group.len() >= 3 {
-                        out.count("c01.release_groups_3plus");
-                    }
-                    // claims of the group, over all users (pre-state requests: nothing of the group was paid before)
-                    let mut claims_total = 0u128;
-                    let mut n_claims = 0u64;
-                    for (_, reqs) in c.pre.requests.iter() {
-                        for (b, ba, sa) in reqs {
-                            if group.contains(b) {
-                                let h = c.post.hist(*b).unwrap();
-                                claims_total += mul_rate(*ba, h.bsei_withdraw) + mul_rate(*sa, h.stsei_withdraw);
-                                n_claims += 1;
-                            }
-                        }
-                    }
-                    let mut pairs = 0u64;
-                    let mut slashed = false;
-                    let mut mixed = false;
-                    let mut undelegated_total = 0u128;
-                    for b in &group {
-                        let h = c.post.hist(*b).unwrap();
-                        if h.bsei_amount > 0 {
-                            pairs += 1;
-                        }
-                        if h.stsei_amount > 0 {
-                            pairs += 1;
-                        }
-                        if h.bsei_amount > 0 && h.stsei_amount > 0 {
-                            mixed = true;
-                        }
-                        undelegated_total += mul_rate(h.bsei_amount, h.bsei_applied) + mul_rate(h.stsei_amount, h.stsei_applied);
-                        if self.slashed_created.contains(&h.time) {
-                            slashed = true;
-                        }
-                    }
-                    if mixed {
-                        out.count("c01.release_groups_mixed_tokens");
-                    }
-                    if slashed {
-                        out.count("c01.release_groups_with_unbonding_slashing");
-                    }
-                    if self.inflow_donated > 0 {
-                        out.count("c01.release_groups_with_donation");
-                    }
-                    let unpaid_before = total_released_claims(c.pre);
-                    if unpaid_before > 0 {
-                        out.count("c01.release_groups_with_older_unpaid_claims");
-                    }
-                    let arrived = self.inflow_matured + self.inflow_donated;
-                    // (d) never more than what arrived
-                    if claims_total > arrived {
-                        out.violation(
-                            P,
-                            "d_group_not_above_arrived",
-                            format!(
-                                "batches {:?} released together: claims worth {} but only {} arrived (matured {}, donated {}); undelegated {}",
-                                group, claims_total, arrived, self.inflow_matured, self.inflow_donated, undelegated_total
-                            ),
-                        );
-                    }
-                    // (e) dust bound without slashing / donation
-                    if !slashed && self.inflow_donated == 0 {
-                        let allowance = 2 * pairs as u128 + n_claims as u128;
-                        if arrived > claims_total + allowance {
-                            out.violation(
-                                P,
-                                "e_dust_bound",
-                                format!(
-                                    "batches {:?}: arrived {} but claims only {} (shortfall {} > allowance {} = 2*{} pairs + {} claims)",
-                                    group,
-                                    arrived,
-                                    claims_total,
-                                    arrived - claims_total,
-                                    allowance,
-                                    pairs,
-                                    n_claims
-                                ),
-                            );
-                        }
-                        out.count("c01.release_groups_dust_bound_checked");
-                    }
-                    out.distinct(&("release", group.len().min(5), slashed, self.inflow_donated > 0, unpaid_before > 0, mixed, decade(claims_total)));
-                }
-                self.inflow_matured = 0;
-                self.inflow_donated = 0;
+                withdrew = true;
             } else {
                 out.count("c01.withdraw_failed");
                 // (b) on the real history: claims in already released batches
@@ -340,6 +244,115 @@ impl Monitor for C01 {
                     );
                 }
             }
+        }
+
+        // ---- release group of this transaction: the batches whose `released` flag flips in this step, whichever
+        // message performs the release (the shipped hub releases inside WithdrawUnbonded only)
+        let mut formed_group = false;
+        let group: Vec<u64> = c
+            .post
+            .history
+            .iter()
+            .filter(|h| h.released && c.pre.hist(h.batch_id).map(|p| !p.released).unwrap_or(false))
+            .map(|h| h.batch_id)
+            .collect();
+        if c.res.ok() && !group.is_empty() {
+            formed_group = true;
+            out.count("c01.release_groups");
+            if !withdrew {
+                out.count("c01.release_groups_outside_withdraw");
+            }
+            if group.len() >= 2 {
+                out.count("c01.release_groups_2plus");
+            }
+            if group.len() >= 3 {
+                out.count("c01.release_groups_3plus");
+            }
+            // claims of the group, over all users (pre-state requests: nothing of the group was paid before)
+            let mut claims_total = 0u128;
+            let mut n_claims = 0u64;
+            for (_, reqs) in c.pre.requests.iter() {
+                for (b, ba, sa) in reqs {
+                    if group.contains(b) {
+                        let h = c.post.hist(*b).unwrap();
+                        claims_total += mul_rate(*ba, h.bsei_withdraw) + mul_rate(*sa, h.stsei_withdraw);
+                        // one floor per claim and token type
+                        n_claims += (*ba > 0) as u64 + (*sa > 0) as u64;
+                    }
+                }
+            }
+            let mut pairs = 0u64;
+            let mut slashed = false;
+            let mut mixed = false;
+            let mut undelegated_total = 0u128;
+            for b in &group {
+                let h = c.post.hist(*b).unwrap();
+                if h.bsei_amount > 0 {
+                    pairs += 1;
+                }
+                if h.stsei_amount > 0 {
+                    pairs += 1;
+                }
+                if h.bsei_amount > 0 && h.stsei_amount > 0 {
+                    mixed = true;
+                }
+                undelegated_total += mul_rate(h.bsei_amount, h.bsei_applied) + mul_rate(h.stsei_amount, h.stsei_applied);
+                if self.slashed_created.contains(&h.time) {
+                    slashed = true;
+                }
+            }
+            if mixed {
+                out.count("c01.release_groups_mixed_tokens");
+            }
+            if slashed {
+                out.count("c01.release_groups_with_unbonding_slashing");
+            }
+            if self.inflow_donated > 0 {
+                out.count("c01.release_groups_with_donation");
+            }
+            let unpaid_before = total_released_claims(c.pre);
+            if unpaid_before > 0 {
+                out.count("c01.release_groups_with_older_unpaid_claims");
+            }
+            let arrived = self.inflow_matured + self.inflow_donated;
+            // (d) never more than what arrived
+            if claims_total > arrived {
+                out.violation(
+                    P,
+                    "d_group_not_above_arrived",
+                    format!(
+                        "batches {:?} released together: claims worth {} but only {} arrived (matured {}, donated {}); undelegated {}",
+                        group, claims_total, arrived, self.inflow_matured, self.inflow_donated, undelegated_total
+                    ),
+                );
+            }
+            // (e) dust bound without slashing / donation
+            if !slashed && self.inflow_donated == 0 {
+                let allowance = 2 * pairs as u128 + n_claims as u128;
+                if arrived > claims_total + allowance {
+                    out.violation(
+                        P,
+                        "e_dust_bound",
+                        format!(
+                            "batches {:?}: arrived {} but claims only {} (shortfall {} > allowance {} = 2*{} pairs + {} claims)",
+                            group,
+                            arrived,
+                            claims_total,
+                            arrived - claims_total,
+                            allowance,
+                            pairs,
+                            n_claims
+                        ),
+                    );
+                }
+                out.count("c01.release_groups_dust_bound_checked");
+            }
+            out.distinct(&("release", group.len().min(5), slashed, self.inflow_donated > 0, unpaid_before > 0, mixed, decade(claims_total)));
+        }
+        if formed_group || withdrew {
+            // the hub re-bases its balance bookkeeping here: what arrived so far is accounted for
+            self.inflow_matured = 0;
+            self.inflow_donated = 0;
         }
 
         // ---- periodic dry run on a clone
